@@ -94,5 +94,14 @@ CLAIMS['C13'] = dict(
          'limits and mirror; helix points; transformation order through main().',
     note='level "other" because part of the property (tapers, helix) is bounded only; trig/sqrt axioms; floats as reals',
     design_ref='DESIGN.md §5 C13')
+CLAIMS['C19'] = dict(
+    category='other',
+    text='Proof over abstract strings: for every writer of the report (geometry rows, media, source blocks and listing, load lines, '
+         'frequency, current table, far-field dBi and V/m tables, near-field tables) every numeric conversion reaching the text is a '
+         'format_float token, %g, or %d of an integer, each field carries exactly the value the statement names, and magnitude/phase '
+         'columns are np.abs / np.angle*180/pi of the same complex number as the real/imaginary columns. BOUNDED stand-in (never counted as '
+         'proved): format_float\'s digit-string manipulation, swept over a rounding-boundary lattice of 8000+ values. One recorded finding (C19-p).',
+    note='level "other": format_float is bounded only; structure (row counts) is proved under C09/C16/C17; % rendering classes trusted',
+    design_ref='DESIGN.md §5 C19')
 for _p in CLAIMS:
     NOT_APPLICABLE.pop(_p, None)
